@@ -343,7 +343,7 @@ def sequence_cases(draw):
             n_ = len(x["letters"])
             stp["derive"] = {"how": draw(st.sampled_from(["sum_to", "sum_to", "cast_to", "neg", "subset"])), "perm": list(draw(st.permutations(list(range(n_)))))}
         steps.append(stp)
-    return {"universe": U, "x": x, "steps": steps, "copy_between": draw(st.booleans())}
+    return {"universe": U, "x": x, "steps": steps, "copy_between": draw(st.booleans()), "same_key_object": draw(st.booleans())}
 
 
 def run_sequence(desc):
@@ -352,9 +352,21 @@ def run_sequence(desc):
     cur = build.marr(U, xd)
     uorder = gen.uletters(U)
     n_lists = 0
+    key_obj = {}
     for si, stp in enumerate(desc["steps"]):
         sel = stp["sel"]
         key = make_key(U, sel, "dict_letter")
+        if desc.get("same_key_object"):
+            # a loop that keeps ONE selection dict and updates it in place between the accesses (sel['t'] = year)
+            fresh = key
+            key = key_obj
+            for k_ in [k_ for k_ in key if k_ not in fresh]:
+                del key[k_]
+            for k_, v_ in fresh.items():
+                if isinstance(v_, list) and isinstance(key.get(k_), list):
+                    key[k_][:] = v_  # the list inside the key is edited in place as well
+                else:
+                    key[k_] = v_
         rl, ritems, orig = region(U, xd["letters"], sel)
         singles = {l: s_["items"][0] for l, s_ in sel.items() if s_["kind"] == "single"}
         if stp["rw"] == "read":
